@@ -14,7 +14,7 @@ aliases, scratch build) are checked by
 import xml.etree.ElementTree as ET
 
 from .. import gen
-from ..common import cstr, cbool, clist, coq_eval
+from ..common import cstr, cbool, clist, safe_coq_eval
 from ..impl import Impl
 
 GEN_FILES = ['Sanitise.v']
@@ -701,17 +701,22 @@ def run(ctx, scratch):
     rest = pool[forced_n:]
     if rest and len(chosen) < budget:
         chosen += rng.sample(rest, min(len(rest), budget - len(chosen)))
+    # Both are evaluated inside Coq (model side): when the checker / model no longer evaluates this is recorded in
+    # ctx.proof_broken by safe_coq_eval and the corresponding comparisons are skipped; ElementTree, the element counts, the
+    # names and the file comparison above have judged every document without it.
+    both = models = None
     if chosen:
-        both = coq_eval('c20wf', COQ_IMPORTS,
-                        ['let d := %s in (wf_check_root "svg" d, (count_starts P_text d, count_starts P_circle d, '
-                         'count_starts P_edge d, count_starts P_wedge d))' % cstr(svg) for (_, svg, _) in chosen],
-                        prelude=PRELUDE, shard=25)
+        both = safe_coq_eval(ctx, 'c20wf', COQ_IMPORTS,
+                             ['let d := %s in (wf_check_root "svg" d, (count_starts P_text d, count_starts P_circle d, '
+                              'count_starts P_edge d, count_starts P_wedge d))' % cstr(svg) for (_, svg, _) in chosen],
+                             prelude=PRELUDE, shard=25)
+    if both is not None:
         verdicts = [b[0] for b in both]
         string_counts = {i: b[1] for (i, _, _), b in zip(chosen, both)}
         with_model = [(i, svg, skel) for (i, svg, skel) in chosen if skel is not None]
-        models = coq_eval('c20model', COQ_IMPORTS, [model_expr(cases[i][3]) for (i, _, _) in with_model],
-                          prelude=PRELUDE, shard=20)
-        model_of = {i: m for (i, _, _), m in zip(with_model, models)}
+        models = safe_coq_eval(ctx, 'c20model', COQ_IMPORTS, [model_expr(cases[i][3]) for (i, _, _) in with_model],
+                               prelude=PRELUDE, shard=20)
+        model_of = {i: m for (i, _, _), m in zip(with_model, models or [])}
         for (i, svg, skel), ok in zip(chosen, verdicts):
             entry, fam, args, meta = cases[i]
             site = 'visualize_' + entry
@@ -733,6 +738,8 @@ def run(ctx, scratch):
                 ctx.violation(site, 'count_starts on the string (text, circle, edge path, wedge) differs from the ElementTree counts',
                               case=args, meta=meta, oracle='string_counts', expected=[got['text'], got['circle'], got['edge'], got['wedge']],
                               observed=list(sc), **base)
+            if models is None:
+                continue
             try:
                 mtag, mskel = skeleton(model_of[i])
             except ET.ParseError as e:
